@@ -30,7 +30,7 @@ func main() {
 		runC19Sim(chk, thorough)
 		runC19CertChain(chk, thorough)
 		chk.Set("exhaustive", true)
-		chk.Set("rule", "every forged decision shape (wrong instance/phase/round/empty/wrong base/bad aggregate) and every signer subset of 3- and 4-member tables (equal, weighted, zero-scaled-power member) injected through the sim adversary host interface, plus an overwritten honest decision; certchain committees for every instance of generated chains (look-back {3,5,10}, initial {0,7}) against the node rule and the node's consensus-inputs component")
+		chk.Set("rule", "every forged decision shape (wrong instance/phase/round/empty/wrong base/bad aggregate; reported at start, after a valid one, or in the name of the last undecided participant so that it completes the instance) and every signer subset of 3- and 4-member tables (equal, weighted, zero-scaled-power member) injected through the sim adversary host interface, plus an overwritten honest decision; certchain committees and certificate commitments for every instance of two chains generated in a row by one generator (look-back {3,5,10}, initial {0,7}), re-validated by a fresh generator, against the node rule and the node's consensus-inputs component")
 		chk.Assume("sim latency model default; fake signing backend; model EC backend for certchain")
 		chk.Finish()
 	case "C03":
